@@ -29,7 +29,7 @@ import tempfile
 import numpy as np
 
 from . import meshgen as mg
-from .C01 import TOL_CHORD, _UxError, _cyclic_match, _is_mixed, _mesh_faces_xyz, _ux, _xyz
+from .C01 import _UxError, _compare_faces, _decoded_faces, _is_mixed, _mesh_faces_xyz, _ux
 from .common import FILL, grid_of, result, ux
 
 import uxarray.conventions.ugrid as _ugrid_mod
@@ -127,39 +127,14 @@ def _encode(grid, fmt, api):
 
 
 def _faces_clause(g2, exp_faces, ordered):
-    """None if g2 has exactly the expected faces, else dict(observed, expected)"""
+    """None if g2 has exactly the expected faces, else dict(kind, observed, expected)"""
     fnc = np.asarray(_ux("Grid.face_node_connectivity", lambda: g2.face_node_connectivity.values))
     lon = np.asarray(_ux("Grid.node_lon", lambda: g2.node_lon.values), float)
     lat = np.asarray(_ux("Grid.node_lat", lambda: g2.node_lat.values), float)
-    if fnc.ndim != 2 or fnc.shape[0] != len(exp_faces):
-        return {"observed": f"{fnc.shape[0] if fnc.ndim else 0} faces", "expected": f"{len(exp_faces)} faces"}
-    P = _xyz(lon, lat)
-    got = []
-    for i, row in enumerate(fnc):
-        if np.issubdtype(fnc.dtype, np.floating):
-            ids = [int(v) for v in row if np.isfinite(v) and v != FILL]
-        else:
-            ids = [int(v) for v in row if v != FILL]
-        if any(v < 0 or v >= len(lon) for v in ids):
-            return {"observed": f"face {i}: node ids {ids} (n_node={len(lon)})", "expected": "indices of the encoded corners"}
-        got.append(P[ids])
-
-    def desc(a):
-        lo, la = mg.lonlat_of(a[:, 0], a[:, 1], a[:, 2])
-        return np.stack([lo, la], axis=1).round(6).tolist()
-    if ordered:
-        for i, (g, e) in enumerate(zip(got, exp_faces)):
-            if not _cyclic_match(g, e):
-                return {"observed": f"face {i} corners (lon,lat) {desc(g)}", "expected": f"cyclic rotation of {desc(e)}"}
-        return None
-    used = [False] * len(got)
-    for i, e in enumerate(exp_faces):
-        hit = next((j for j, g in enumerate(got) if not used[j] and len(g) == len(e) and _cyclic_match(g, e)), None)
-        if hit is None:
-            return {"observed": f"no decoded face equals source face {i}; sizes decoded {sorted({len(g) for g in got})}",
-                    "expected": f"some face with corners {desc(e)}"}
-        used[hit] = True
-    return None
+    if fnc.ndim != 2:
+        return {"kind": "n_face", "observed": f"table shape {fnc.shape}", "expected": f"{len(exp_faces)} rows"}
+    got, bad = _decoded_faces(fnc, lon, lat)
+    return bad if bad is not None else _compare_faces(got, exp_faces, ordered=ordered)
 
 
 def _refs_clause(enc):
@@ -277,7 +252,9 @@ def _run(mesh, fmt, d):
 
 # ------------------------------------------------------------------------------------------------ driver
 def _ckey(clause, info):
-    return f"{clause}:{info['exc']}" if "exc" in info else clause
+    if "exc" in info:
+        return f"{clause}:{info['exc']}"
+    return f"{clause}[{info['kind']}]" if "kind" in info else clause
 
 
 _MEMO = {}
